@@ -18,7 +18,7 @@ def obligations(tier):
     T = 90 if tier == "quick" else 600
     return [
         dict(name="selftest_strip", func="selftest_strip", file="xhlib.py", timeout=60, bounds="engine self-test: strip/rstrip identities, |s|<=3"),
-        *[dict(name=f"props3[k0%8=={r}]", func="props3", pre=f"k0 % 8 == {r}", timeout=T, bounds="3 properties: first key any literal-derived key (symbolic index), second from 8 keys, third a duplicate of the first or CREDIT; values any Unicode <=3 (first may be None), chart field <=2") for r in range(8)],
+        *[dict(name=f"props3[k0%8=={r}]", func="props3", pre=f"k0 % 8 == {r}", timeout=2 * T, bounds="3 properties: first key any literal-derived key (symbolic index), second from 8 keys, third a duplicate of the first or CREDIT; values any Unicode <=3 (first may be None), chart field <=2") for r in range(8)],
         dict(name="multi_value", func="multi_value", timeout=T, bounds="ATTACKS/DISPLAYBPM value symbolic <=3 or None, the other from 5 representatives"),
         *[dict(name=f"chart_field[{i}]", func="chart_field", pre=f"i == {i}", timeout=T, bounds=f"chart field {i} symbolic <=2 stripped, 0..2 extra components <=2, 1..2 charts") for i in range(6)],
         dict(name="chart_attr_edit", func="chart_attr_edit", timeout=T, bounds="blank simfile + blank chart, one field set by attribute"),
